@@ -114,6 +114,22 @@ pub fn exec(w: &[&str]) -> Option<String> {
             }
             Some(show_frs(&calc_witness(inputs, &bytes)))
         }
+        // a long chain graph (Input 0, Input 1, then n-2 additions of input 0) through the container and calc_witness:
+        // sizes beyond any internal pre-allocation / batching threshold. Prints the node count read back and the last node's value.
+        ("graph", 4) if w[1] == "bigchain" => {
+            let n = parse_usize(w[2])?;
+            let x = parse_fr(w[3])?;
+            let mut nodes: Vec<Node> = vec![Node::Input(0), Node::Input(1)];
+            for k in 2..n { nodes.push(Node::Op(Operation::Add, k - 1, 0)); }
+            let sigs = vec![0usize, n - 1];
+            let mut info = InputSignalsInfo::new();
+            info.insert("x".to_string(), (1, 1));
+            let mut bytes = Vec::new();
+            if serialize_witnesscalc_graph(&mut bytes, &nodes, &sigs, &info).is_err() { return Some("err".into()); }
+            let back = match deserialize_witnesscalc_graph(std::io::Cursor::new(&bytes[..])) { Ok((n2, s2, i2)) => (n2.len(), n2 == nodes && s2 == sigs && i2 == info), Err(_) => return Some("unreadable".into()) };
+            let wit = calc_witness(vec![("x".to_string(), vec![x])], &bytes);
+            Some(format!("nodes={} same={} out={}", back.0, back.1, wit.last().map(fr_hex).unwrap_or("-".into())))
+        }
         ("reframe", 3) => {
             let b = parse_bytes(w[1])?;
             let n: usize = w[2].parse().ok()?;
